@@ -1,0 +1,29 @@
+//go:build verif
+// +build verif
+
+// Contracts for the deductive verifier in /verif (govc). Comment-only: this file adds no code.
+
+package bitstr
+
+// ---- C09 / C19: bit strings ----
+
+//@ func New returns (r)
+//@   ensures fresh(r)
+//@   assigns nothing
+
+//@ func Len returns (r)
+//@   assigns nothing
+
+//@ func Cmp returns (r)
+//@   assigns nothing
+
+//@ func cmpBytes returns (r)
+//@   assigns nothing
+//@   loop 1
+//@     invariant true
+
+//@ func CmpUpto returns (r)
+//@   assigns nothing
+
+//@ func StrCmpUpto returns (r)
+//@   assigns nothing
